@@ -91,3 +91,10 @@ Theorem C04_operation_code_facts :
   interrupt_is_unbounded = true /\ ops_use_plain_interrupt = true /\ add_connects_after_interrupt = true.
 Proof. repeat split; reflexivity. Qed.
 Print Assumptions C04_operation_code_facts.
+
+(** the model keeps one chain per direction; in the code each direction's chain is a slice of its own
+    (a fresh allocation per direction in NewToxicCollection, regenerated), so appending the n-th
+    toxic of one direction cannot write into the chain of the other *)
+Theorem C04_chains_are_separate : chains_are_separate = true.
+Proof. reflexivity. Qed.
+Print Assumptions C04_chains_are_separate.
